@@ -2,6 +2,7 @@ import SwimVerif.Driver
 import SwimVerif.Model.Envelope
 import SwimVerif.Model.Routing
 import SwimVerif.Model.RoutingMon
+import SwimVerif.Model.MultiReader
 
 namespace SwimVerif.Machines.C11
 open SwimVerif
@@ -30,6 +31,15 @@ def c11route : Machine where
   minit := {}
   mstep := fun m line out => m.step line out
 
-def machines : List (String × Machine) := [("c11pure", c11pure), ("c11route", c11route)]
+/-- Multiplexer part: `MultiReader` polled by hand. -/
+def c11mr : Machine where
+  σ := MultiReader.St
+  init := MultiReader.init
+  step := fun s line => MultiReader.stepLine s line
+  μ := MultiReader.Mon
+  minit := {}
+  mstep := fun m line out => m.stepFull line out
+
+def machines : List (String × Machine) := [("c11pure", c11pure), ("c11route", c11route), ("c11mr", c11mr)]
 
 end SwimVerif.Machines.C11
